@@ -99,7 +99,7 @@ func convExpr(e ast.BooleanExpression) (*Expr, error) {
 		}
 		return nil, fmt.Errorf("binary operator %q", x.Operator)
 	case *ast.OperatorExpression:
-		leaf := &Expr{K: "leaf", Form: "cmp", Opnd: x.Operand.Literal, Val: x.ComparisonValue,
+		leaf := &Expr{K: "leaf", Form: "cmp", Opnd: x.Operand.Literal, Val: x.ComparisonValue, RawVal: x.ComparisonValue,
 			Strict: x.ComparisonValueType == ast.StrictValueComparison}
 		op, ok := tokOp[x.Operator]
 		if !ok {
